@@ -115,7 +115,10 @@ PROPS = {
                 families=[dict(name="builder", family="builder", profile="default", quick=1500, thorough=30000, shard=150,
                                tags=["nil", "issues", "dtype", "params", "msg", "dest", "calls", "panic", "share"]),
                           # WithCoercer acts on its own schema only: on primitives, through Ptr, on the slice itself, next to global overrides
-                          eng("coercers", "C03", 500, 8000, ["nil", "issues", "dest", "panic"])]),
+                          eng("coercers", "C03", 500, 8000, ["nil", "issues", "dest", "panic"]),
+                          # a chain means the same on every later execution of the schema it built: after issues were collected, after a
+                          # neighbour caught a failure of a test that shares its Params map
+                          dict(name="history", family="history", profile="C07", quick=300, thorough=4000, tags=["params", "msg", "panic"])]),
     "C18": dict(theorems=["C18_float_to_int_exact", "C18_nan_inf_rejected", "C18_float_out_of_range_rejected", "C18_int_from_int_exact", "C18_int_in_range",
                           "C18_int32_in_range", "C18_int32_accepts", "C18_int32_rejects", "C18_int64_accepts", "C18_f64_identity",
                           "C18_f32_rounds_never_to_infinity", "C18_f32_overflow_rejected"],
